@@ -498,7 +498,13 @@ def implShape (op : Op) (out : String) : Resp :=
     | .listBuckets => .buckets []
     | .putObject .. => .put none {}
     | .getObject .. => .get [] 0 none none [] {}
-    | .headObject .. => .head 0 none []
+    | .headObject .. =>
+      -- `ok:<length>:<etag>:<metadata>`: length, presence of the ETag and metadata are what `classify` looks at
+      match out.splitOn ":" with
+      | ["ok", cl, et, md] =>
+        let m : Meta := if md = "" then [] else ((md.splitOn ",").mapM pair?).getD []
+        .head (cl.toNat?.getD 0) (if et = "-" then none else some []) m
+      | _ => .head 0 none []
     | .deleteObjects .. => .deleted []
     | .copyObject .. => .copied none
     | .listObjectsV2 .. => .listed [] 0 false []
